@@ -64,7 +64,7 @@ def inline_minimize(ctx):
     """an objective statement is only replaced if it is `:~ B, X = #sum/#sum+/#count{E}. [X@p,T]` with exactly one body
     aggregate, X bound by that aggregate's only guard, X used nowhere else, every global variable of the aggregate
     part of the tuple (p,T), a #sum+ only with non-negative numeric weights, and no other objective tuple of the
-    program potentially unifying with (X,p,T); it is then replaced by one statement per element `w,t : c` of E:
+    program -- not even a textually identical one of another statement -- potentially unifying with (X,p,T); it is then replaced by one statement per element `w,t : c` of E:
     `:~ B, c. [w@p,t,T,unique..]`, padded to be longer than every objective tuple of the program"""
     m, ex = ctx.m, ctx.ex
     wf = wf_of(ctx)
@@ -101,7 +101,7 @@ def inline_minimize(ctx):
     aggs = collect("BodyAggregate")(stm.term)
     E = A.BodyAggregate_elements(agg0)
     fn = A.BodyAggregate_function(agg0)
-    k, j, q = z3.Int("k!im"), z3.Int("j!im"), z3.Int("q!im")
+    k, j, q, q2 = z3.Int("k!im"), z3.Int("j!im"), z3.Int("q!im"), z3.Int("q2!im")
     v = z3.Const("v!im", m.AST)
     el = at(E, k)
     et = A.BodyAggregateElement_terms(el)
@@ -183,7 +183,9 @@ def inline_minimize(ctx):
         ctx.oblige(
             f"gate-no-other-tuple-unifies#{n}",
             s,
-            z3.ForAll([q], z3.Implies(z3.And(0 <= q, q < lnL(tuples.term), ext(atL(tuples.term, q), rt), atL(tuples.term, q) != rt), z3.Not(U(atL(tuples.term, q), rt)))),
+            # at most ONE position of the program's objective tuples (this statement's own) may potentially unify with
+            # (X,p,T): a textually identical tuple of another statement counts as another tuple
+            z3.ForAll([q, q2], z3.Implies(z3.And(0 <= q, q < q2, q2 < lnL(tuples.term)), z3.Not(z3.And(U(atL(tuples.term, q), rt), U(atL(tuples.term, q2), rt))))),
             replay=FB15,
         )
         # shape of the replacement: one objective statement per aggregate element
